@@ -58,3 +58,48 @@ func invDispatch(c *core.Ctx, r *core.Report) {
 	}
 	r.OK("inv", "done", "", "")
 }
+
+func init() { Registry["INV-memo"] = invMemo }
+
+// invMemo lists get-or-compute patterns and their key gaps (development aid).
+func invMemo(c *core.Ctx, r *core.Report) {
+	e := core.NewDepEngine(c)
+	for _, fn := range c.RepoFunctions() {
+		file := c.Fset.Position(fn.Pos()).Filename
+		if strings.HasSuffix(file, "_test.go") || strings.Contains(file, "/testdata/") {
+			continue
+		}
+		for _, m := range core.FindMemos(fn) {
+			gaps := core.MemoKeyGaps(e, m, nil)
+			sort.Strings(gaps)
+			fmt.Printf("%s %s container=%s val=%s gaps=%v\n", c.Pos(m.Update.Pos()), c.FuncName(fn), m.Container, core.DescribeValue(m.Val, 0), gaps)
+		}
+	}
+	r.OK("inv", "done", "", "")
+}
+
+func init() { Registry["INV-underlying"] = invUnderlying }
+
+// invUnderlying lists type assertions / type switches on a types.Type to a
+// structural type whose operand is not visibly an underlying / core type.
+func invUnderlying(c *core.Ctx, r *core.Report) {
+	for _, s := range core.StructuralTypeTests(c) {
+		fmt.Printf("%s %s %s -> %s [%s]\n", s.Pos, s.Func, s.Operand, s.Target, s.Guard)
+	}
+	r.OK("inv", "done", "", "")
+}
+
+func init() { Registry["INV-bounds"] = invBounds }
+
+func invBounds(c *core.Ctx, r *core.Report) {
+	for _, fn := range c.RepoFunctions() {
+		file := c.Fset.Position(fn.Pos()).Filename
+		if strings.HasSuffix(file, "_test.go") || strings.Contains(file, "/testdata/") {
+			continue
+		}
+		for _, m := range core.ForeignBounds(fn) {
+			fmt.Printf("%s %s index=%s bounded-by=len(%s) indexes=%v\n", c.Pos(m.Cmp.Pos()), c.FuncName(fn), core.DescribeValue(m.Index, 0), core.DescribeValue(m.LenOf, 0), m.Indexed)
+		}
+	}
+	r.OK("inv", "done", "", "")
+}
